@@ -73,8 +73,10 @@ DigitsVal(d)   == FoldLeft(LAMBDA acc, x : acc * 10 + x, 0, d)
 RECURSIVE NatDigits(_)
 NatDigits(n) == IF n < 10 THEN <<n>> ELSE Append(NatDigits(n \div 10), n % 10)
 
-\* big-endian byte sequence -> number (callers keep it below 2^31)
-BEVal(bs) == FoldLeft(LAMBDA acc, x : acc * 256 + x, 0, bs)
+\* big-endian byte sequence -> number; saturates at 2^31-1 (TLC integers are 32-bit; a saturated field
+\* never equals a real offset, so adversarial wide fields make the reader answer "not ok", not fail)
+SatVal == 2147483647
+BEVal(bs) == FoldLeft(LAMBDA acc, x : IF acc > 8388607 THEN SatVal ELSE acc * 256 + x, 0, bs)
 
 \* lexicographic / numeric comparison of *normalised* digit sequences (no leading zeros)
 DigitsLE(a, b) ==
